@@ -287,12 +287,12 @@ def collect_sites(ctx):
             fx.fn(e)
         za = {}
         for e, cr in ZONE_A_ENTRIES:
-            za.update(cg.reachable([e], crates=fx.deps_closure(cr)))
+            za.update(cg.reachable([fx.fn(e)["key"]], crates=fx.deps_closure(cr)))
         zb = {}
         bents = zone_b_entries(fx)
         for e, cr in bents:
             fx.fn(e)
-            r = cg.reachable([e], crates=fx.deps_closure(cr))
+            r = cg.reachable([fx.fn(e)["key"]], crates=fx.deps_closure(cr))
             for k, p in r.items():
                 zb.setdefault(k, (p, e))
         sites = defaultdict(list)
